@@ -7,6 +7,7 @@ directions) for every chunking and every interleaving. The weight of the check i
 differential run over real sockets.
 -/
 import SamVerif.Model.Relay
+import SamVerif.Gen.Relay
 namespace SamVerif.Props.C05
 open SamVerif.Relay
 
@@ -144,8 +145,63 @@ example : (run State.init [(true, .send [1,2,3]), (false, .send [9]), (true, .re
     (true, .read 1), (false, .read 1), (true, .write), (true, .fin), (false, .write)]).map
       (fun s => (s.a2b.delivered, s.a2b.eof, s.b2a.delivered, s.b2a.eof)) = some ([1,2,3], true, [9], false) := by decide
 
+/-- **The code the model was written against.** The statements of the modelled functions,
+regenerated from the current source on every run, are the ones the model was written against;
+any edit to one of them makes this obligation fail and starts a search for a failing input. -/
+theorem code_matches_model :
+    Gen.Relay.handleConn =
+      ["cconn := netutil.New(conn)",
+      "cconn.SetReadTimeout(*p.cfg.IdleTimeout)",
+      "healthyHosts := p.hostSet.Healthy()",
+      "if len(healthyHosts) == 0 { p.Warnf(\"No available host\") return }",
+      "host := p.lb.PickHost(healthyHosts)",
+      "sconn, err := p.dial(host)",
+      "if err != nil { p.Warnf(\"Dial to host[%s] failed: %v\", host, err) p.stats.Upstream.CxConnectFail.Inc() return }",
+      "defer sconn.Close()",
+      "host.IncConnCount()",
+      "p.stats.Upstream.CxTotal.Inc()",
+      "p.stats.Upstream.CxActive.Inc()",
+      "defer func() { host.DecConnCount() p.stats.Upstream.CxDestroyTotal.Inc() p.stats.Upstream.CxActive.Dec() }()",
+      "done := make(chan struct{})",
+      "finished := make(chan struct{})",
+      "defer close(finished)",
+      "go func() { select { case <-host.WaitRemoved(): p.Infof(\"host: %s removed, conn will close...\", host.Addr) sconn.Close() cconn.Close() return case <-p.quit: sconn.Close() cconn.Close() return case <-finished: return } }()",
+      "go func() { p.pipeConn(cconn, sconn) close(done) }()",
+      "p.pipeConn(sconn, cconn)",
+      "<-done"] ∧
+    Gen.Relay.pipeConn =
+      ["_, err := copyBuffer(dst, src, nil)",
+      "if err == nil { err = errors.New(\"read EOF\") }",
+      "p.Debugf(\"%s -> %s -> %s closed: %s\", src.RemoteAddr(), p.Address(), dst.RemoteAddr(), err)",
+      "if err := closeWrite(dst); err != nil { dst.Close() }",
+      "if err := closeRead(src); err != nil { src.Close() }"] ∧
+    Gen.Relay.copyBuffer =
+      ["if len(buf) != 0 { return io.CopyBuffer(dst, src, buf) }",
+      "buf = getBuffer()",
+      "written, err = io.CopyBuffer(dst, src, buf)",
+      "putBuffer(buf)",
+      "return"] ∧
+    Gen.Relay.closeRead =
+      ["if closer, ok := conn.(closeReader); ok { return closer.CloseRead() }",
+      "return nil"] ∧
+    Gen.Relay.closeWrite =
+      ["if closer, ok := conn.(closeWriter); ok { return closer.CloseWrite() }",
+      "return nil"] ∧
+    Gen.Relay.dial =
+      ["rawConn, err := dialTimeout(\"tcp\", host.Addr, *p.cfg.ConnectTimeout)",
+      "if err != nil { if _, ok := err.(interface { Timeout() bool }); ok { p.stats.Upstream.CxConnectTimeout.Inc() } return nil, err }",
+      "conn := netutil.New(rawConn)",
+      "conn.SetReadTimeout(*p.cfg.IdleTimeout)",
+      "stats := &netutil.Stats{ ReadTotal: p.stats.Upstream.CxRxBytesTotal, WriteTotal: p.stats.Upstream.CxTxBytesTotal, Duration: p.stats.Upstream.CxLengthSec, }",
+      "conn.SetStats(stats)",
+      "conn.SetInBytesCounter(host.ConnBytesInCounter())",
+      "conn.SetOutBytesCounter(host.ConnBytesOutCounter())",
+      "return conn, nil"] := by
+  refine ⟨rfl, rfl, rfl, rfl, rfl, rfl⟩
+
 end SamVerif.Props.C05
 
 #print axioms SamVerif.Props.C05.relay_stream
 #print axioms SamVerif.Props.C05.half_close_independent
 #print axioms SamVerif.Props.C05.finished_sender_progress
+#print axioms SamVerif.Props.C05.code_matches_model
